@@ -1019,7 +1019,7 @@ impl Case {
         let mut closed = vec![false; nports.max(1)];
         for port in 0..nports {
             let (mut ready, mut started, mut done) = (false, false, false);
-            let (mut unreadied, mut after_fin) = (0, 0);
+            let (mut unreadied, mut after_fin, mut after_done_lenient) = (0, 0, 0);
             for (p, e) in log.iter() {
                 if *p != port {
                     continue;
@@ -1030,7 +1030,11 @@ impl Case {
                         if !ready {
                             unreadied += 1;
                         }
-                        if done || (started && !lenient) {
+                        if lenient {
+                            if done {
+                                after_done_lenient += 1;
+                            }
+                        } else if started {
                             after_fin += 1;
                         }
                         ready = false;
@@ -1047,6 +1051,8 @@ impl Case {
             closed[port] = done;
             rec.check(unreadied == 0, &format!("unreadied-send@{comb}"), &format!("port={port} n={unreadied} {d}"));
             rec.check(after_fin == 0, &format!("send-after-finalize@{comb}"), &format!("port={port} n={after_fin} {d}"));
+            // F124: only reachable when the caller polls again after Done (as Fanout does to a finished branch)
+            rec.check(after_done_lenient == 0, "send-after-finalize-done@resolve-nonblocking", &format!("port={port} n={after_done_lenient} {d}"));
         }
         rec.check(!log.iter().any(|(p, _)| *p >= nports.max(1)), &format!("stray-port@{comb}"), &d);
         // 2. driver-specific: finalize only after the pull ended, pull not polled after Ended
